@@ -123,6 +123,25 @@ def r03_1(rep, mod):
     rep.check('R03.1', 'is_consistent', ok,
               'returns not <non-strict resolver of C>.had_inconsistency: %s'
               % [norm_src(r.value) for r in rets], construct='result', node=f)
+    # the verdict needs the flag of every ancestor: orders supplied by the
+    # caller become _StaticMRO entries whose flag is None ("unknown"), which
+    # any() reads as "consistent"
+    st = find_def(mod, '_StaticMRO')
+    from ..pyfront import class_attr_assign
+    unknown = class_attr_assign(st, 'had_inconsistency')
+    tri = unknown is not None and norm_src(unknown) == 'None'
+    okw = False
+    supplied = 'no resolver'
+    if ok:
+        e = match('C3.resolver($c, $s, $b)', rv)
+        if e is not None:
+            b = resolve_local(f, e['b'])
+            supplied = norm_src(b)
+            okw = supplied in ('None', '{}', 'dict()') or not tri
+    rep.check('R03.1', 'is_consistent', okw,
+              'the whole tree is resolved (base_mros = %s): precomputed orders '
+              'carry had_inconsistency = None, which would hide an inherited '
+              'inconsistency' % supplied[:60], construct='whole-tree', node=f)
 
 
 def no_normal_exit(func):
